@@ -26,6 +26,7 @@ def obligations(cx):
         cfgs = [c for c in cfgs if not (not c.ideal and c.curves == 'many' and c.initial and c.mode != 'temperature')]
     N, DT, A_, M0, T0, X0 = procs.N, procs.DT, procs.A_, procs.M0, procs.T0, procs.X0
     k = var('k', 'I')
+    kept = []
     for cfg in cfgs:
         tag = cfg.tag()
         pv, kw, ps = procs.run(cx, cfg, extra_contracts={'__allow_shape_change__': True})
@@ -34,6 +35,7 @@ def obligations(cx):
         cx.ob(tag + ".paths", [], blit(len(steps) >= 1 and all(p.outcome == 'raise' or (isinstance(p.value, Obj) and p.value.cls == 'ProcessModel') for p in ps)),
               kind='paths', function=fn, outcomes=str(outcome_set(ps)))
         cx.requires_obs(tag, [s.path for s in steps])
+        if cfg.ideal and cfg.comp_type == 'weight' and cfg.model == 'NRTL' and steps: kept.append((cfg, steps[0], pv))
         for si, st in enumerate(steps):
             t = "%s.path%d" % (tag, si)
             changes = [n for n in st.ex.notes if isinstance(n, dict) and 'shape_change' in n]
@@ -82,9 +84,67 @@ def obligations(cx):
             cx.ob(t + ".model-exposes-the-series", [], blit(same), kind='paths', function=fn,
                   statement="the reported series are the lists built by the step loop (look-ahead element removed)")
             if si == 0: cx.must_fail(t + ".time-grid", st.pc + [k >= 1, k < N], eq(tm.fn(k), DT * (k + 1)) if isinstance(tm, Seq) else FALSE)
+    recurrence_differential(cx, kept)
     cx.assume_note("induction over steps: prefix = base case, generic iteration = step, append-only frame checked syntactically (DESIGN 2.6); the induction principle itself is trusted")
     cx.assume_note("calculate_partial_fluxes, get_permeance, find_best_fit, PervaporationFunction.__call__, TemperatureProgram.program by contract")
     cx.assume_note("'exactly up to floating-point rounding': rounding is outside the real-number model")
+
+
+def recurrence_differential(cx, kept):
+    """extracted recurrence == CPython: the real ideal models are run natively; at every step the recurrence terms of the generic
+    iteration, evaluated at the real state of step k with the real callee results (fluxes, permeances, programme value), must
+    reproduce the real state of step k+1 and the heats of step k.  A disagreement is exit 3 (engine problem), not a verdict."""
+    from ..nativeio import native
+    from ..ir import ev, EvalError
+    cases = []; metas = []
+    for cfg, st, pv in kept:
+        case = dict(func=cfg.func, mode=cfg.mode, program=cfg.program, comp_type='weight', N=5, dt=0.25, A=0.03, m0=2.0, T0=333.15, x0=0.2, Tp=285.0, pp=0.7, builtin='H2O_EtOH', program_offset=0.0)
+        cases.append(case); metas.append((cfg, st, pv))
+    if not cases: return
+    outs = native(dict(cmd='procs_series', cases=cases))
+    total = 0
+    for (cfg, st, pv), S in zip(metas, outs):
+        if 'error' in S: raise Unsupported("recurrence differential: native run failed: %s" % S['error'])
+        mix = pv.f['mixture']
+        env0 = dict(A=S['A'], dt=S['dt'], m0=S['m0'], T0=S['T0'], x0=S['x0'], prec=S['prec'], N=S['N'])
+        if S['Tp'] is not None: env0['Tp'] = S['Tp']
+        if S['pp'] is not None: env0['pp'] = S['pp']
+        for t_, c in (('1', S['c1']), ('2', S['c2'])):
+            if c['vptype'] != 'antoine': raise Unsupported("recurrence differential expects Antoine components")
+            env0.update({'M' + t_: c['M'], 'vpa' + t_: c['vpa'], 'vpb' + t_: c['vpb'], 'vpc' + t_: c['vpc'], 'ca' + t_: c['ca'], 'cb' + t_: c['cb'], 'cc' + t_: c['cc'], 'cd' + t_: c['cd']})
+        names = [flatten(mix.f['first_component'].f['name'])[0], flatten(mix.f['second_component'].f['name'])[0]]
+        terms = dict(m=st.appended('feed_mass'), x=st.appended('feed_composition').f['p'], y=st.appended('permeate_composition').f['p'], Q=st.appended('feed_evaporation_heat'))
+        cnd = st.appended('permeate_condensation_heat')
+        if isinstance(cnd, T): terms['C'] = cnd
+        if not cfg.iso: terms['T'] = st.appended('feed_temperature')
+        apps = collect(list(terms.values()), lambda n: isinstance(n, T) and n.op == 'app')
+        for k in range(S['N'] - 1):
+            env = dict(env0); env['k'] = k
+            def setread(name, val):
+                v = st.read(name, 0)
+                if isinstance(v, Obj): env[v.f['p'].a[0]] = val
+                elif isinstance(v, T) and v.op == 'v': env[v.a[0]] = val
+            setread('feed_mass', S['feed_mass'][k]); setread('feed_composition', S['x'][k])
+            if not cfg.iso: setread('feed_temperature', S['T'][k])
+            for a in apps:
+                nm = a.a[0]
+                if nm == 'cpf1': env[('#', a.id)] = S['J'][k][0]
+                elif nm == 'cpf2': env[('#', a.id)] = S['J'][k][1]
+                elif nm == 'perm': env[('#', a.id)] = S['P'][k][0 if a.a[2] is names[0] else 1]
+                elif nm == 'program': env[('#', a.id)] = S['T'][k + 1]
+                elif nm == 'log' or nm == 'sqrt': pass
+                else: raise Unsupported("recurrence differential: unexpected callee application %s" % nm)
+            want = dict(m=S['feed_mass'][k + 1], x=S['x'][k + 1], y=S['y'][k], Q=S['Q'][k])
+            if 'C' in terms: want['C'] = S['C'][k]
+            if 'T' in terms: want['T'] = S['T'][k + 1]
+            for key, t_ in terms.items():
+                try: got = ev(t_, env)
+                except EvalError as x: raise Unsupported("recurrence differential: cannot evaluate %s at step %d: %s" % (key, k, x))
+                if abs(got - want[key]) > 1e-8 * max(1.0, abs(want[key])):
+                    raise Unsupported("ENGINE-DIFFERENTIAL %s (%s): extracted recurrence gives %s=%r at step %d, the real model has %r" % (cfg.func, cfg.tag(), key, got, k, want[key]))
+                total += 1
+    cx.notes.append(dict(recurrence_differential=dict(models=len(metas), compared_values=total)))
+    cx.diff_total = getattr(cx, 'diff_total', 0) + total
 
 
 def replay_case(r):
